@@ -80,7 +80,7 @@ impl NetworkBottleneck {
     pub fn new(network: Network, window: Duration, queue_pps: Option<usize>) -> Self {
         let pps = network.pps.unwrap_or(queue_pps.unwrap_or(usize::MAX));
         // average delay, based on window and limit
-        let added_delay = window / pps as u32;
+        let added_delay = window / pps.clamp(1, u32::MAX as usize) as u32;
 
         Self {
             network,
